@@ -93,6 +93,9 @@ int main(int argc, char** argv) {
     else if (hc_is(0, "print")) { volatile long long r = -1; HC_TRY(r = print_to(f, 0, "%li ", $I(hc_int(2)))); emit("print", o, hc_int(2), 0, hc_exc, r); }
     else if (hc_is(0, "scan")) { var v = $I(-1); HC_TRY(scan_from(f, 0, "%li ", v)); emit("scan", o, 0, 0, hc_exc, c_int(v)); }
     else if (hc_is(0, "del")) { HC_TRY(del_raw(f)); fobj[o] = NULL; emit("del", o, 0, 0, hc_exc, 0); }
+    /* the object outlives its destructor (the life cycle of a stack File, or of a File constructed again in place) */
+    else if (hc_is(0, "destruct")) { HC_TRY(destruct(f)); emit("destruct", o, 0, 0, hc_exc, 0); }
+    else if (hc_is(0, "construct")) { char pth[128]; strcpy(pth, path_of((int)hc_int(2))); HC_TRY(construct(f, $S(pth), $S((char*)MODES[hc_int(3)]))); emit("construct", o, hc_int(2), hc_int(3), hc_exc, 0); }
     else { fprintf(stderr, "unknown op %s\n", hc_w[0]); return 9; }
   }
   for (int i = 1; i < MAXO; i++) if (fobj[i]) { HC_TRY(del_raw(fobj[i])); fobj[i] = NULL; }
